@@ -254,7 +254,7 @@ pub struct Front {
     pub n_args: usize,
 }
 
-pub fn front(src: &str, args: &[i64], keys: u64, budget: u64) -> Result<Front, String> {
+pub fn front(src: &str, args: &[i64], keys: u64, budget: u64, a64: bool) -> Result<Front, String> {
     let r = seam::in_instance(keys, || -> Result<Front, String> {
         let parsed = fun::parser::parse_module(src).map_err(|e| format!("parse error: {e:?}"))?;
         let checked = parsed.check().map_err(|e| format!("type error: {e:?}"))?;
@@ -266,8 +266,13 @@ pub fn front(src: &str, args: &[i64], keys: u64, budget: u64) -> Result<Front, S
             let shrunk = core2axcut::program::shrink_prog(focused);
             let mut linearized = shrunk;
             linearized.linearize();
-            let code = axcut2backend::coder::compile::<axcut2x86_64::Backend, _, _, _>(linearized);
-            axcut2x86_64::into_routine::into_x86_64_routine(code).print_to_string(None)
+            if a64 {
+                let code = axcut2backend::coder::compile::<axcut2aarch64::Backend, _, _, _>(linearized);
+                axcut2aarch64::into_routine::into_aarch64_routine(code).print_to_string(None)
+            } else {
+                let code = axcut2backend::coder::compile::<axcut2x86_64::Backend, _, _, _>(linearized);
+                axcut2x86_64::into_routine::into_x86_64_routine(code).print_to_string(None)
+            }
         }))
         .map_err(|e| seam::panic_msg(&e));
         Ok(Front { reference, text, n_args })
@@ -363,7 +368,7 @@ pub fn run_source(rt: &CRuntime, src: &str, argv: &[String], plan: &EnvPlan, key
             Err(_) => return Verdict::Harness(format!("argv `{a}` is not a decimal i64")),
         }
     }
-    let f = match front(src, &args, keys, 300_000) {
+    let f = match front(src, &args, keys, 300_000, false) {
         Ok(f) => f,
         Err(e) => {
             if e.starts_with("PANIC") {
@@ -442,6 +447,67 @@ pub fn run_source(rt: &CRuntime, src: &str, argv: &[String], plan: &EnvPlan, key
     Verdict::Ok
 }
 
+/// C20 on AArch64: the emitted text runs on the AArch64 emulator with a stub driver (X0 = heap,
+/// X1.. = the arguments as 64-bit integers); prints are recorded by the stub runtime
+pub fn run_source_a64(src: &str, args: &[i64], plan: &EnvPlan, keys: u64, stats: &mut XStats) -> Verdict {
+    let f = match front(src, args, keys, 300_000, true) {
+        Ok(f) => f,
+        Err(e) => {
+            if e.starts_with("PANIC") {
+                return Verdict::Note(format!("pipeline failure: {}", e.chars().take(100).collect::<String>()));
+            }
+            return Verdict::Discard(format!("rejected by the front end: {}", e.chars().take(40).collect::<String>()));
+        }
+    };
+    let rv = match &f.reference.end {
+        FunEnd::Done(v) => *v,
+        FunEnd::Undefined(_) => return Verdict::Discard("reference undefined (division)".into()),
+        FunEnd::Budget => return Verdict::Discard("reference step budget".into()),
+        FunEnd::Stuck(m) => return Verdict::Harness(format!("reference machine stuck on a checked program: {m}")),
+    };
+    if f.n_args != args.len() || f.n_args > 7 {
+        return Verdict::Discard("argument count".into());
+    }
+    let text = match f.text {
+        Ok(t) => t,
+        Err(m) => {
+            if m.contains("Out of temporaries") || m.contains("too many arguments") {
+                return Verdict::Discard("backend capacity".into());
+            }
+            return Verdict::Note(format!("pipeline failure: {}", m.chars().take(100).collect::<String>()));
+        }
+    };
+    let prog = match crate::a64::load(&text, plan.code_base) {
+        Ok(p) => p,
+        Err(LoadErr::Text(v)) => return Verdict::Viol("Text".into(), format!("aarch64 text not executable: {}", v.msg)),
+        Err(LoadErr::Harness(m)) => return Verdict::Harness(format!("aarch64 loader: {m}")),
+    };
+    let opts = ExecOpts { step_budget: 4000 * f.reference.steps + 100_000, check_heap: true, record_snaps: 0, print_hook: None };
+    let (o, _) = crate::a64::exec(&prog, args, plan, &opts);
+    stats.executions += 1;
+    stats.instructions += o.steps;
+    stats.markers += o.markers;
+    stats.prints += o.calls.len() as u64;
+    stats.faults.add(&o.faults);
+    if let Some(v) = &o.viol {
+        if v.class == Class::Capacity {
+            return Verdict::Discard("simulated heap capacity exceeded".into());
+        }
+        return Verdict::Viol(format!("{:?}", v.class), format!("aarch64: {}", v.msg));
+    }
+    if let Some(v) = o.soft.first() {
+        return Verdict::Viol(format!("{:?}", v.class), format!("aarch64: {}", v.msg));
+    }
+    let same = o.calls.len() == f.reference.prints.len() && o.calls.iter().zip(&f.reference.prints).all(|(a, b)| a.newline == b.0 && a.arg == b.1);
+    if !same {
+        return Verdict::Viol("Args".into(), format!("aarch64: print calls {:?} differ from the source semantics {:?} for arguments {:?}", o.calls.iter().map(|c| c.arg).collect::<Vec<_>>(), f.reference.prints.iter().map(|c| c.1).collect::<Vec<_>>(), args));
+    }
+    if o.result.map(|r| r & 0xff) != Some(rv & 0xff) {
+        return Verdict::Viol("Status".into(), format!("aarch64: result {:?} but the source semantics gives {rv}", o.result));
+    }
+    Verdict::Ok
+}
+
 // ---------------------------------------------------------------------------------------------
 // workloads
 
@@ -471,7 +537,7 @@ pub fn corpus_with_args() -> Vec<(String, String, Vec<String>)> {
 }
 
 fn c20_program(rng: &mut Rng) -> (String, Vec<String>) {
-    let k = rng.below(6);
+    let k = rng.below(8);
     let names: Vec<String> = (1..=k).map(|i| format!("a{i}")).collect();
     let params = names.iter().map(|n| format!("{n}: i64")).collect::<Vec<_>>().join(", ");
     let mut body = String::new();
@@ -612,7 +678,7 @@ pub fn xworker(id: &str, tier: &str, seed: u64, w: u64, n: u64) -> i32 {
             sum.stats.with_shadowing += 1;
         }
         // wrong argument count (C20): must be reported without running
-        if id == "C20" && rng.pct(15) {
+        if id == "C20" && argv.len() <= 5 && rng.pct(15) {
             let k = argv.len();
             let mut bad = argv.clone();
             if bad.is_empty() || rng.pct(50) { bad.push("7".into()) } else { bad.pop(); }
@@ -636,6 +702,43 @@ pub fn xworker(id: &str, tier: &str, seed: u64, w: u64, n: u64) -> i32 {
                     unique_twin: None,
                 };
                 emit(serde_json::json!({"found": rp}));
+            }
+        }
+        if id == "C20" {
+            // AArch64 half of the quantifier (0..7 parameters), stub driver
+            let args: Vec<i64> = argv.iter().map(|a| a.parse().unwrap_or(0)).collect();
+            let plan = hostile_plan(&mut prng, 1 << 16);
+            match run_source_a64(&src, &args, &plan, keys, &mut sum.stats) {
+                Verdict::Viol(class, message) => {
+                    let rp = XReplay {
+                        engine: "X".into(),
+                        property: id.to_string(),
+                        class,
+                        message,
+                        verif_seed: seed,
+                        run: i,
+                        kind: "a64-args".into(),
+                        source: src.clone(),
+                        argv: argv.clone(),
+                        plan,
+                        minimised: true,
+                        unique_twin: None,
+                    };
+                    emit(serde_json::json!({"found": rp}));
+                }
+                Verdict::Harness(h) => {
+                    sum.harness = Some(format!("run {i}: {h}"));
+                    emit(serde_json::json!({"summary": sum}));
+                    return 2;
+                }
+                Verdict::Ok => {
+                    seen.insert(hash_str(&format!("a64|{src}|{argv:?}")));
+                }
+                _ => {}
+            }
+            if argv.len() > 5 {
+                i += n;
+                continue;
             }
         }
         for hostile in [false, true] {
@@ -707,8 +810,17 @@ pub fn replay_x(rt: &CRuntime, rp: &XReplay) -> Result<Option<(String, String)>,
             }
             Ok(None)
         }
+        "a64-args" => {
+            let args: Vec<i64> = rp.argv.iter().map(|a| a.parse().unwrap_or(0)).collect();
+            let keys = Rng::keyed(rp.verif_seed, rp.run, "hashkeys").next() | 1;
+            match run_source_a64(&rp.source, &args, &rp.plan, keys, &mut st) {
+                Verdict::Viol(c, m) => Ok(Some((c, m))),
+                Verdict::Harness(h) => Err(h),
+                _ => Ok(None),
+            }
+        }
         "argc" => {
-            let f = front(&rp.source, &[], 1, 10).ok();
+            let f = front(&rp.source, &[], 1, 10, false).ok();
             let k = f.map(|f| f.n_args).unwrap_or(0).min(5);
             let r = run_exe(rt, None, k, &rp.argv, &EnvPlan::benign(), &ExecOpts { step_budget: 0, check_heap: false, record_snaps: 0, print_hook: None });
             let text = String::from_utf8_lossy(&r.stdout).to_string();
@@ -744,7 +856,7 @@ fn items(src: &str) -> Vec<String> {
 }
 
 pub fn minimise_x(rt: &CRuntime, rp: &mut XReplay, mut attempts: usize) {
-    if rp.kind == "print" || rp.kind == "argc" {
+    if rp.kind == "print" || rp.kind == "argc" || rp.kind == "a64-args" {
         return;
     }
     let same = |rt: &CRuntime, c: &XReplay, class: &str| -> Option<String> {
